@@ -135,22 +135,27 @@ def script (name : String) : Option (JV → Bool) :=
 
 /-! ### root-relative filter scripts (`$.q` as an operand): root → element → truth value
 
-`==` of the script language on the values the trees contain (no floats): true iff both sides are the same
-integer here (one side is `$.q`, an integer or absent); `!=` is its negation. -/
+`==` of the script language (`sameValue`: Go's `==` on the normalised operands) on the values the trees contain (no
+floats): both sides absent (`Nothing == Nothing`), or the same null, truth value, integer or string; a container equals
+nothing. `!=` is its negation. -/
 
 def keyQ : Bytes := [113]
 
-def eqInt (x y : Option JV) : Bool :=
-  match intOf x, intOf y with
-  | some i, some j => decide (i = j)
+def eqVal (x y : Option JV) : Bool :=
+  match x, y with
+  | none, none => true
+  | some .null, some .null => true
+  | some (.bool a), some (.bool b) => a == b
+  | some (.int a), some (.int b) => decide (a = b)
+  | some (.str a), some (.str b) => a == b
   | _, _ => false
 
 def rscript (name : String) : Option (JV → JV → Bool) :=
-  if name = "eqq" then some fun r v => eqInt (some v) (memberOf keyQ r)                 -- @ == $.q
-  else if name = "neqq" then some fun r v => !eqInt (some v) (memberOf keyQ r)          -- @ != $.q
-  else if name = "aeqq" then some fun r v => eqInt (memberOf keyA v) (memberOf keyQ r)  -- @.a == $.q
-  else if name = "aneqq" then some fun r v => !eqInt (memberOf keyA v) (memberOf keyQ r) -- @.a != $.q
-  else if name = "qeqa" then some fun r v => eqInt (memberOf keyQ r) (memberOf keyA v)  -- $.q == @.a
+  if name = "eqq" then some fun r v => eqVal (some v) (memberOf keyQ r)                 -- @ == $.q
+  else if name = "neqq" then some fun r v => !eqVal (some v) (memberOf keyQ r)          -- @ != $.q
+  else if name = "aeqq" then some fun r v => eqVal (memberOf keyA v) (memberOf keyQ r)  -- @.a == $.q
+  else if name = "aneqq" then some fun r v => !eqVal (memberOf keyA v) (memberOf keyQ r) -- @.a != $.q
+  else if name = "qeqa" then some fun r v => eqVal (memberOf keyQ r) (memberOf keyA v)  -- $.q == @.a
   else none
 
 /-! ### path text → fragments -/
@@ -185,22 +190,23 @@ def parseFrag (root : JV) (elemRoot : Bool) (s : String) : Option Frag :=
       | none => (rscript name).map fun p => Frag.filter (if elemRoot then fun v => p v v else p root)
     | _ => none
 
-def parseFrags (root : JV) (lastElemRoot : Bool) : List String → Option (List Frag)
+/-- the last `k` fragments are read with the element as `$` -/
+def parseFrags (root : JV) (k : Nat) : List String → Option (List Frag)
   | [] => some []
-  | [s] => (parseFrag root lastElemRoot s).map fun f => [f]
   | s :: r =>
-    match parseFrag root false s, parseFrags root lastElemRoot r with
+    match parseFrag root (decide (r.length < k)) s, parseFrags root k r with
     | some f, some fs => some (f :: fs)
     | _, _ => none
 
 /-- the path as the specification reads it (`$` in a filter is the document) -/
 def parsePath (root : JV) (s : String) : Option (List Frag) :=
-  if s = "-" then some [] else parseFrags root false (s.splitOn "/")
+  if s = "-" then some [] else parseFrags root 0 (s.splitOn "/")
 
-/-- the path as the code reads it under the driver-level deviation `t` (filterRootLast): Modify and Remove
-evaluate a filter in last position with the element as `$` -/
-def parsePathT (root : JV) (t : Bool) (s : String) : Option (List Frag) :=
-  if s = "-" then some [] else parseFrags root t (s.splitOn "/")
+/-- the path as the code reads it under the driver-level deviation `t` (filterRootLast): Modify evaluates a filter in
+last position with the element as `$` (`k = 1`); Remove is Modify along the path without its last fragment with that
+fragment's `remove` method as the modifier, so there it is the last TWO positions (`k = 2`) -/
+def parsePathT (root : JV) (k : Nat) (s : String) : Option (List Frag) :=
+  if s = "-" then some [] else parseFrags root k (s.splitOn "/")
 
 def parseBool (s : String) : Option Bool :=
   if s = "1" then some true else if s = "0" then some false else none
@@ -310,8 +316,8 @@ def handle : List String → String
   | [op, gen, dev, one, path, data, arg] =>
     match parseOp op arg, parseBool gen, parseDevT dev, parseBool one, parseJV data with
     | some o, some gen, some (dev, t), some one, some d =>
-      let t := t && (match o with | .mod _ => true | .rem => true | _ => false)
-      match parsePathT d t path with
+      let k := if t then (match o with | .mod _ => 1 | .rem => 2 | _ => 0) else 0
+      match parsePathT d k path with
       | some x => renderOut (runModel gen dev one x d o)
       | none => "bad-op"
     | _, _, _, _, _ => "bad-op"
